@@ -93,6 +93,14 @@ fn take<'a>(run: &RunCtx, tid: u8, slot: u8, u: &'a Unimock, held: &mut Held<'a>
             let r = u.lend_z(0);
             ev(run, tid, slot, LendWhat::Taken { val, kind, addr: r as *const ZTok as u64 });
         }
+        LendKind::ViaLentClone => {
+            // (the inner clone's id is irrelevant to the drop accounting: lent clones carry no tracker)
+            let inner: &Unimock = u.lend_clone(0);
+            held.u.push(inner);
+            let r = inner.lend_a(0);
+            ev(run, tid, slot, LendWhat::Taken { val, kind, addr: r as *const ValA as u64 });
+            held.a.push((val, r));
+        }
         LendKind::CloneOfSelf => {
             let r = u.lend_clone(0);
             ev(run, tid, slot, LendWhat::Taken { val, kind, addr: r as *const Unimock as u64 });
